@@ -152,9 +152,32 @@ theorem softfork_monotone_dersig (fl : Flags) (chk : Checker) (scriptSig scriptP
     verifyScript { fl with dersig := false } chk scriptSig scriptPubKey wit = .ok () :=
   Lemmas.verifyScript_mono Lemmas.dersig_tightening fl chk scriptSig scriptPubKey wit () h
 
-/-- the hypotheses of the monotonicity theorems are satisfiable: a spend that verifies under all four flags -/
+/-- Segregated witness is a soft fork: for every flag set without CLEANSTACK (a policy flag that Core only
+allows together with WITNESS), a spend that verifies with the WITNESS flag verifies without it. -/
+theorem softfork_monotone_witness (fl : Flags) (hcs : fl.cleanstack = false) (chk : Checker)
+    (scriptSig scriptPubKey : Bytes) (wit : List Bytes)
+    (h : verifyScript { fl with witness := true } chk scriptSig scriptPubKey wit = .ok ()) :
+    verifyScript { fl with witness := false } chk scriptSig scriptPubKey wit = .ok () :=
+  Lemmas.verifyScript_witness_off fl hcs chk scriptSig scriptPubKey wit h
+
+/-- Taproot is a soft fork. -/
+theorem softfork_monotone_taproot (fl : Flags) (chk : Checker) (scriptSig scriptPubKey : Bytes)
+    (wit : List Bytes) (h : verifyScript { fl with taproot := true } chk scriptSig scriptPubKey wit = .ok ()) :
+    verifyScript { fl with taproot := false } chk scriptSig scriptPubKey wit = .ok () :=
+  Lemmas.verifyScript_mono_seq Lemmas.taproot_seq fl chk scriptSig scriptPubKey wit () h
+
+/-- P2SH (BIP16) is a soft fork, for flag sets without CLEANSTACK and WITNESS (both of which Core only allows
+on top of P2SH). -/
+theorem softfork_monotone_p2sh (fl : Flags) (hcs : fl.cleanstack = false) (hw : fl.witness = false)
+    (chk : Checker) (scriptSig scriptPubKey : Bytes) (wit : List Bytes)
+    (h : verifyScript { fl with p2sh := true } chk scriptSig scriptPubKey wit = .ok ()) :
+    verifyScript { fl with p2sh := false } chk scriptSig scriptPubKey wit = .ok () :=
+  Lemmas.verifyScript_p2sh_off fl hcs hw chk scriptSig scriptPubKey wit h
+
+/-- the hypotheses of the monotonicity theorems are satisfiable: a spend that verifies under all six flags -/
 example : ∃ chk : Checker,
-    verifyScript { cltv := true, csv := true, nulldummy := true, dersig := true } chk [0x51] [0x51] [] = .ok () :=
+    verifyScript { cltv := true, csv := true, nulldummy := true, dersig := true, witness := true, taproot := true }
+      chk [0x51] [0x51] [] = .ok () :=
   ⟨⟨fun _ _ _ _ => .ok false, fun _ _ _ _ => .ok (), fun _ => false, fun _ => false, fun _ _ _ _ => .ok false⟩,
    by rfl⟩
 
